@@ -135,6 +135,16 @@ def edits(spec, r):
         s = copy.deepcopy(spec)
         del s["ctcs"][i]
         yield "ctc:remove", s
+        # an operand replaced by a DIFFERENT name that has the same casefold() (ß/ss, ligatures, final sigma...):
+        # "beyond letter case" - these are other names
+        for k, c in enumerate(spec["ctcs"]):
+            tw = {n: fold_twin(n) for n in S.ast_names(c["ast"]) if isinstance(n, str) and fold_twin(n)}
+            if tw:
+                n0 = sorted(tw)[0]
+                s = copy.deepcopy(spec)
+                s["ctcs"][k]["ast"] = S.rename_ast(c["ast"], {n0: tw[n0]})
+                yield "ctc:operand-fold-twin", s
+                break
     s = copy.deepcopy(spec)
     s["ctcs"].append({"name": "extra", "ast": ["REQUIRES", names[0], fresh]})
     yield "ctc:add", s
@@ -202,6 +212,8 @@ def cases(desc):
             if j % 3 == 0:
                 spec = case_colliding(spec, r)
                 yield "random-case-colliding-names", spec, r
+            elif j % 3 == 1:
+                yield "random-sort-tie-and-foldable-names", special_names(spec, r), r
             else:
                 yield "random", spec, r
 
@@ -230,6 +242,50 @@ def case_colliding(spec, r):
         f["name"] = ren.get(f["name"], f["name"])
     for c in spec["ctcs"]:
         c["ast"] = sub(c["ast"])
+    return spec
+
+
+FOLD = {"ß": "ss", "ﬁ": "fi", "µ": "μ", "ſ": "s", "ς": "σ"}   # same casefold(), different lower()
+FOLDABLE_NAMES = ["Paket-Maße", "Größe x", "ﬁle-1", "µ-meter", "ſet-a", "λόγος-1", "Straße 7"]
+TIE_NAMES = [("V1", "V01"), ("7", "007"), ("x3", "x٣"), ("Item2", "Item02"), ("a10b", "a010b"), ("F1", "F1 ")]
+
+
+def fold_twin(name):
+    out = name
+    for a, b in FOLD.items():
+        if a in out:
+            return out.replace(a, b, 1)
+    return None
+
+
+def special_names(spec, r):
+    """Some features renamed to names that fold/sort together with another DISTINCT name: pairs that tie under a
+    'natural' or zero-padding-insensitive order (siblings in one relation where possible), and names containing
+    characters whose casefold() differs from lower()."""
+    feats = list(S.features(spec["root"]))
+    names = set(S.feature_names(spec))
+    ren = {}
+    sib = [rel["children"] for f in feats for rel in f["rels"] if len(rel["children"]) >= 2]
+    pairs = list(TIE_NAMES)
+    r.shuffle(pairs)
+    for ch, (a, b) in zip(r.sample(sib, min(len(sib), 2)), pairs):
+        x, y = r.sample(ch, 2)
+        if a not in names and b not in names and x["name"] not in ren and y["name"] not in ren:
+            ren[x["name"]], ren[y["name"]] = a, b
+            names |= {a, b}
+    rest = [f for f in feats if f["name"] not in ren]
+    for f, nm in zip(r.sample(rest, min(len(rest), 2)), r.sample(FOLDABLE_NAMES, 2)):
+        if nm not in names:
+            ren[f["name"]] = nm
+            names.add(nm)
+    for f in feats:
+        f["name"] = ren.get(f["name"], f["name"])
+    for c in spec["ctcs"]:
+        c["ast"] = S.rename_ast(c["ast"], ren)
+    new = S.feature_names(spec)
+    used = [n for n in new if fold_twin(n)]
+    for k, n in enumerate(used[:2]):
+        spec["ctcs"].append({"name": f"fold{k}", "ast": ["IMPLIES", n, new[0] if new[0] != n else new[-1]]})
     return spec
 
 
